@@ -225,6 +225,43 @@ theorem C20_convex_of_weights [LinearOrder κ] [IsStrictOrderedRing κ] (ws : Li
     rw [hneg] at h
     linarith
 
+private theorem maskedExp_scale (e e' : κ → κ) (g : κ) (h : ∀ x, e' x = e x * g) :
+    ∀ (ss : List κ) (m : List Bool), maskedExp e' ss m = (maskedExp e ss m).map (· * g)
+  | [], _ => by simp [maskedExp]
+  | _ :: _, [] => by simp [maskedExp]
+  | s :: ss, b :: m => by
+    have ih := maskedExp_scale e e' g h ss m
+    simp only [maskedExp] at ih ⊢
+    simp only [List.zipWith_cons_cons, List.map_cons, ih]
+    cases b <;> simp [h]
+
+private theorem sum_map_mul_right' (l : List κ) (g : κ) : (l.map (· * g)).sum = l.sum * g := by
+  induction l with
+  | nil => simp
+  | cons a l ih => simp only [List.map_cons, List.sum_cons, ih]; ring
+
+private theorem softmaxMasked_scale (e e' : κ → κ) (g : κ) (hg : g ≠ 0) (h : ∀ x, e' x = e x * g)
+    (ss : List κ) (m : List Bool) : softmaxMasked e' ss m = softmaxMasked e ss m := by
+  simp only [softmaxMasked, maskedExp_scale e e' g h, sum_map_mul_right', List.map_map]
+  apply List.map_congr_left
+  intro x _
+  simp only [Function.comp]
+  exact mul_div_mul_right x _ hg
+
+/-- **C20_shift_invariant**: the attention weights and the output do not depend on a common
+positive (indeed: non-zero) factor in the function used in place of `exp`: every `e'` with
+`e' x = e x * g`, `g ≠ 0`, gives the same result as `e`.  With `e = exp` and `g = exp (-c)` this
+is the shift invariance of the softmax, `e' x = exp (x - c)`: the max-subtracting softmax that
+torch computes (and the instance `expShift c` the driver runs, which does not underflow for
+strongly negative scores) is the same function of the inputs as the plain one. -/
+theorem C20_shift_invariant (th e e' : κ → κ) (g : κ) (hg : g ≠ 0) (h : ∀ x, e' x = e x * g)
+    (fl : Flavour κ) (D : Nat) (q : List κ) (ks vs : List (List κ)) (mask : Option (List Bool)) :
+    weights th e' fl q ks mask = weights th e fl q ks mask ∧
+    attend th e' fl D q ks vs mask = attend th e fl D q ks vs mask := by
+  have hw : weights th e' fl q ks mask = weights th e fl q ks mask := by
+    simp only [weights, softmaxMasked_scale e e' g hg h]
+  exact ⟨hw, by simp only [attend, hw]⟩
+
 /-- **C20_blind**: the output does not change when the keys and values at masked positions
 are replaced by any other (finite: elements of `κ`) keys and values.  Holds for every
 `e`, every flavour, every mask. -/
@@ -385,6 +422,42 @@ theorem C20_multihead_perm [Field κ] (th e : κ → κ) (m : MHA κ) (q : List 
       (linear (headBlock m.dk h m.WK) (m.bK.map (headBlock m.dk h)))
       (linear (headBlock m.dv h m.WV) (m.bV.map (headBlock m.dv h)))) id)
     simpa [List.zip_map, List.zip_map_left] using this
+
+/-- **C20_multihead_shift**: `mhaForwardH` — every head exponentiating with its own
+`eh h x = e x * g h`, `g h ≠ 0` (the driver: `exp (x - c_h)`, `c_h` the largest kept score of head
+`h`) — is `mhaForward` with the one function `e`. -/
+theorem C20_multihead_shift [Field κ] (th e : κ → κ) (eh : Nat → κ → κ) (g : Nat → κ)
+    (hg : ∀ h, g h ≠ 0) (he : ∀ h x, eh h x = e x * g h) (m : MHA κ) (q : List κ)
+    (ks vs : List (List κ)) (mask : Option (List Bool)) :
+    mhaForwardH th eh m q ks vs mask = mhaForward th e m q ks vs mask ∧
+    mhaSpecH th eh m q ks vs mask = mhaSpec th e m q ks vs mask := by
+  constructor
+  · simp only [mhaForwardH, mhaCoreH, mhaForward, mhaCore]
+    congr 2
+    apply List.map_congr_left
+    intro h _
+    exact (C20_shift_invariant th e (eh h) (g h) (hg h) (he h) _ _ _ _ _ _).2
+  · simp only [mhaSpecH, mhaSpec]
+    congr 2
+    apply List.map_congr_left
+    intro h _
+    simp only [headSpec]
+    -- attendSpec only uses `e` through quotients `e s / Σ e s'`
+    unfold attendSpec
+    simp only [he h]
+    apply List.map_congr_left
+    intro d _
+    have hZ : ∀ (l : List (List κ × List κ)) (sc : List κ → κ),
+        (l.map (fun kv => e (sc kv.1) * g h)).sum = (l.map (fun kv => e (sc kv.1))).sum * g h := by
+      intro l sc
+      induction l with
+      | nil => simp
+      | cons a l ih => simp only [List.map_cons, List.sum_cons, ih]; ring
+    rw [hZ]
+    apply congrArg
+    apply List.map_congr_left
+    intro kv _
+    rw [mul_div_mul_right _ _ (hg h)]
 
 /-- **C20_bias_exact**: the (repaired) constructor puts a bias on exactly the projections
 for which one was requested. -/
